@@ -136,17 +136,8 @@ func runC20(c *Ctx) {
 					switch {
 					case name == "private/buf/cmd/buf/command/format.run":
 						// format --exit-code: guarded by the diff condition
-						if dfn, ok := encl.(*ast.FuncLit); ok {
-							s := ""
-							ast.Inspect(dfn.Body, func(n ast.Node) bool {
-								if ifs, ok := n.(*ast.IfStmt); ok && containsNode(ifs, id) {
-									s = exprString(ifs.Cond)
-								}
-								return true
-							})
-							if strings.Contains(s, "diffExists") && strings.Contains(s, "ExitCode") && strings.Contains(s, "== nil") {
-								why = "format --exit-code: set in a deferred function only when retErr == nil && flags.ExitCode && diffExists"
-							}
+						if dfn, ok := encl.(*ast.FuncLit); ok && c20FormatExitGuarded(p, pk, dfn) {
+							why = "format --exit-code: set in a deferred function only when retErr == nil && flags.ExitCode && diffExists"
 						}
 					}
 					c.Ob("PRINT-PAIR", name+"/sentinel", id.Pos(), why != "", true, "sentinel used without a print in the same function: %s", map[bool]string{true: why, false: "no reviewed exception applies"}[why != ""])
@@ -1066,4 +1057,78 @@ func c20ErrorFormatWired(c *Ctx) {
 			c.Ob(rule, ssaFuncName(sf), call.Pos(), wired, true, "the controller is constructed with WithFileAnnotationErrorFormat(<the ErrorFormat flag>): %v", wired)
 		}
 	}
+}
+
+// c20FormatExitGuarded decides, on SSA, the one reviewed exception of PRINT-PAIR: in the deferred function of the
+// format command the annotation sentinel is assigned only on an edge where (a) the named error result is nil, (b) the
+// ExitCode flag is set and (c) a boolean captured from the enclosing function (the "a diff exists" snapshot) is true -
+// however the three tests are spelled (one conjunction, or early returns).
+func c20FormatExitGuarded(p *Prog, pk *packages.Package, lit *ast.FuncLit) bool {
+	var fn *ssa.Function
+	for _, sf := range p.SSAFuncsOf([]*packages.Package{pk}) {
+		for _, f := range allSSAFuncs(sf) {
+			if f.Syntax() == ast.Node(lit) {
+				fn = f
+			}
+		}
+	}
+	if fn == nil {
+		return false
+	}
+	found, okAll := false, true
+	for _, b := range fn.Blocks {
+		for _, ins := range b.Instrs {
+			st, ok := ins.(*ssa.Store)
+			if !ok || !isErrorType(st.Val.Type()) {
+				continue
+			}
+			if _, isFree := st.Addr.(*ssa.FreeVar); !isFree {
+				continue
+			}
+			// the stored value is a package-level sentinel
+			u, ok := stripConv(st.Val).(*ssa.UnOp)
+			if !ok {
+				continue
+			}
+			if _, isGlobal := u.X.(*ssa.Global); !isGlobal {
+				continue
+			}
+			found = true
+			errNil, exitCode, captured := false, false, false
+			for _, ge := range guardingEdges(b) {
+				cv, pos := condPolarity(ge.If.Cond)
+				holds := ge.Branch == pos
+				if x, trueIsNonNil, isNil := nilCompare(cv); isNil {
+					if ld, ok := stripConv(x).(*ssa.UnOp); ok && ld.X == st.Addr && ge.Branch != (trueIsNonNil == pos) {
+						errNil = true
+					}
+					continue
+				}
+				if !holds {
+					continue
+				}
+				sliceBack(cv, func(y ssa.Value) bool {
+					switch t := y.(type) {
+					case *ssa.FieldAddr:
+						if strings.HasSuffix(fieldName(t.X.Type(), t.Field), ".ExitCode") {
+							exitCode = true
+						}
+					case *ssa.UnOp:
+						if fv, ok := t.X.(*ssa.FreeVar); ok && fv != st.Addr && isBoolType(t.Type()) {
+							captured = true
+						}
+					case *ssa.FreeVar:
+						if isBoolType(t.Type()) {
+							captured = true
+						}
+					}
+					return true
+				})
+			}
+			if !(errNil && exitCode && captured) {
+				okAll = false
+			}
+		}
+	}
+	return found && okAll
 }
